@@ -29,7 +29,7 @@ from bacpypes import apdu as A
 try:
     # engine shim (see the module's docstring): exact symbolic `|` / `& mask` for the octet
     # assembly in Integer.decode / BitString.decode.  Absent under plain-Python replay.
-    from ..ref import C01_sxshim as _sxshim
+    from .. import sx_bitops as _sxshim
     _sxshim.install()
 except ImportError:
     _sxshim = None
